@@ -190,6 +190,7 @@ def observe(label, factory, depth, site, scopes):
     expected_frames = list(reversed(frames))
   fails = []
   caught = None
+  trace_out = observe.last_trace = []
   try:
     level(0)()
   except BaseException as e:  # pylint: disable=broad-except
@@ -199,6 +200,36 @@ def observe(label, factory, depth, site, scopes):
   if caught is None:
     return [(dict(clause='raised'), 'nothing was raised')]
   is_exc = isinstance(original, Exception)
+  # -- the same observation as a GinExc trace (validated by TLC against the spec with today's deviations) --
+  kinds = {}
+  for name in dir(original):
+    if name.startswith('_'):
+      continue
+    try:
+      want = getattr(original, name)
+    except Exception:  # pylint: disable=broad-except
+      continue
+    if callable(want):
+      continue
+    k = storage_of(original, name)
+    if k not in ('args', 'dict', 'slots', 'cmember'):
+      continue
+    try:
+      got = getattr(caught, name)
+      same = got == want or got is want
+    except Exception:  # pylint: disable=broad-except
+      same = False
+    kinds[k] = kinds.get(k, True) and same
+  same_class = type(caught).__name__ == type(original).__name__ and isinstance(caught, type(original))
+  desc = dict(ctor=ctor_kind(original), attrs=sorted(kinds), isExc=is_exc)
+  desc['id'] = '%s|%s|%s' % (desc['ctor'], ','.join(desc['attrs']), desc['isExc'])
+  for conf, scope in reversed(expected_frames):
+    trace_out.append(['Enter', conf, scope])
+  trace_out.append(['Raise', desc['id'], site])
+  trace_out.extend([['Propagate']] * len(expected_frames))
+  trace_out.append(['Catch', bool(same_class), sorted(k for k, ok in kinds.items() if ok) if same_class else [],
+                    str(caught).count("In call to configurable")])
+  observe.last_desc = desc
   if not is_exc:
     if caught is not original:
       fails.append((dict(clause='pass-through'), 'a non-Exception was replaced by %r' % (caught,)))
